@@ -294,6 +294,8 @@ class Parser(object):
                         if not self.acc(','):
                             break
                 self.exp(')')
+                if not args:
+                    return ('id', v)      # `f()` is how exppp (and stepcode's parser) write a call without arguments
                 return ('call', v, tuple(args))
             return ('id', v)
         raise ParseError('line %s: expression expected, found %s %r' % (t.line, k, v))
@@ -888,17 +890,55 @@ def _str_chain(n):
     return None
 
 
+def _spine(n):
+    """operands of a left-associated `+` chain, left to right"""
+    ops = []
+    while isinstance(n, tuple) and len(n) == 4 and n[0] == 'op' and n[1] == '+':
+        ops.append(n[3])
+        n = n[2]
+    ops.append(n)
+    ops.reverse()
+    return ops
+
+
 def align(src, out, notes=None):
-    """Return `out` with `'ab' + 'cd'` folded into 'abcd' wherever `src` holds the single literal 'abcd'."""
+    """Return `out` with `'ab' + 'cd'` folded into 'abcd' wherever `src` holds the single literal 'abcd'.
+
+    The printer writes the pieces of a split literal without parentheses, so inside a `+` chain they join the
+    chain's left spine: `x + 'ab.cd'` is printed `x + 'ab.' + 'cd'`.  Both shapes are folded back."""
     if src == out or not isinstance(src, tuple) or not isinstance(out, tuple) or not src or not out:
         return out
-    if src[0] == 'str' and len(src) == 2 and out[0] == 'op':
-        ch = _str_chain(out)
-        if ch is not None and len(ch) > 1 and ''.join(ch) == src[1]:
-            if notes is not None:
-                notes.append(len(ch))
-            return src
-        return out
+    if len(out) == 4 and out[0] == 'op' and out[1] == '+':
+        S, O = _spine(src), _spine(out)
+        if len(O) > len(S):
+            res, j, ok, n = [], 0, True, 0
+            for s_ in S:
+                if j >= len(O):
+                    ok = False
+                    break
+                o_ = O[j]
+                if (isinstance(s_, tuple) and len(s_) == 2 and s_[0] == 'str' and isinstance(o_, tuple) and len(o_) == 2
+                        and o_[0] == 'str' and o_[1] != s_[1] and s_[1].startswith(o_[1])):
+                    acc, j0 = '', j
+                    while j < len(O) and isinstance(O[j], tuple) and len(O[j]) == 2 and O[j][0] == 'str' \
+                            and s_[1].startswith(acc + O[j][1]) and acc != s_[1]:
+                        acc += O[j][1]
+                        j += 1
+                    if acc != s_[1]:
+                        ok = False
+                        break
+                    n += j - j0
+                    res.append(s_)
+                else:
+                    res.append(align(s_, o_, notes))
+                    j += 1
+            if ok and j == len(O):
+                if notes is not None:
+                    notes.append(n)
+                t = res[0]
+                for x in res[1:]:
+                    t = ('op', '+', t, x)
+                return t
     if len(src) != len(out):
         return out
     return tuple(align(a, b, notes) for a, b in zip(src, out))
